@@ -368,4 +368,226 @@ theorem fromImport_step (env : Env) (ctx : Frame) (f : Nat) (cur : Option Nat) (
   obtain ⟨o, ho⟩ := include_module env ctx f cur true t T hT hs st
   simp only [stepItems, ho, topFrame_snoc, take_append_one, andThen_nil]
 
+/-- the result is not (caused by) an exhausted fuel budget -/
+def noRec {α : Type} (r : Except Err α) : Prop := ∀ e, r = .error e → Kind.recursion ∉ e
+
+theorem noRec_ok {α : Type} (a : α) : noRec (Except.ok a : Except Err α) := by
+  intro e h; cases h
+
+theorem specItems_noRec (D : Nat → List (List Item)) (rec : Nat → Nat → Except Err (List String))
+    (cur : Option (Nat × Nat)) (items : List Item)
+    (h1 : ∀ m, .callBlock m ∈ items → (D m).isEmpty = false → noRec (rec m 0))
+    (h2 : ∀ n k, cur = some (n, k) → k + 1 < (D n).length → noRec (rec n (k + 1))) :
+    noRec (specItems D rec cur items) := by
+  induction items with
+  | nil => exact noRec_ok _
+  | cons it rest ih =>
+    have ih := ih (fun m hm => h1 m (List.mem_cons_of_mem _ hm))
+    intro e he
+    cases it with
+    | text s =>
+      simp only [specItems] at he
+      cases hr : specItems D rec cur rest with
+      | error e' => rw [hr] at he; cases he; exact ih _ hr
+      | ok o => rw [hr] at he; cases he
+    | callBlock m =>
+      simp only [specItems] at he
+      cases hDm : (D m).isEmpty with
+      | true => simp [hDm] at he; subst he; simp
+      | false =>
+        simp only [hDm, Bool.false_eq_true, if_false] at he
+        cases hm : rec m 0 with
+        | error e' =>
+          rw [hm] at he; cases he
+          exact h1 m (by simp) hDm _ hm
+        | ok o =>
+          rw [hm] at he
+          cases hr : specItems D rec cur rest with
+          | error e' => rw [hr] at he; cases he; exact ih _ hr
+          | ok o' => rw [hr] at he; cases he
+    | super =>
+      simp only [specItems] at he
+      cases cur with
+      | none => cases he; simp
+      | some p =>
+        obtain ⟨n, k⟩ := p
+        simp only [] at he
+        by_cases hlt : k + 1 < (D n).length
+        · simp only [hlt, if_true] at he
+          cases hm : rec n (k + 1) with
+          | error e' =>
+            rw [hm] at he; simp only [liftErr] at he; cases he
+            have := h2 n k rfl hlt _ hm
+            simp [this]
+          | ok o =>
+            rw [hm] at he; simp only [liftErr] at he
+            cases hr : specItems D rec (some (n, k)) rest with
+            | error e' => rw [hr] at he; cases he; exact ih _ hr
+            | ok o' => rw [hr] at he; cases he
+        · simp only [hlt, if_false] at he; cases he; simp
+    | «extends» exec t =>
+      cases exec with
+      | false => simp only [specItems] at he; exact ih e he
+      | true => simp only [specItems] at he; cases he; simp
+    | _ => simp only [specItems] at he; cases he; simp
+
+/-- nesting measure: blocks are entered in increasing order, levels of one block upwards -/
+def mu (B L n k : Nat) : Nat := (B - n) * (L + 1) + (L - k)
+
+theorem mu_block (B L n k m : Nat) (hnm : n < m) (hm : m < B) : mu B L m 0 < mu B L n k := by
+  unfold mu
+  have hab : (B - m) + 1 ≤ B - n := by omega
+  have h := Nat.mul_le_mul_right (L + 1) hab
+  rw [Nat.add_mul] at h
+  generalize (B - m) * (L + 1) = X at h ⊢
+  generalize (B - n) * (L + 1) = Y at h ⊢
+  omega
+
+theorem mu_super (B L n k : Nat) (hk : k + 1 < L + 1) : mu B L n (k + 1) < mu B L n k := by
+  unfold mu
+  generalize (B - n) * (L + 1) = Y
+  omega
+
+theorem mu_le (B L n k : Nat) : mu B L n k ≤ B * (L + 1) + L := by
+  unfold mu
+  have := Nat.mul_le_mul_right (L + 1) (Nat.sub_le B n)
+  generalize (B - n) * (L + 1) = X at this ⊢
+  generalize B * (L + 1) = Y at this ⊢
+  omega
+
+/-- block rendering needs only bounded nesting: with block names below `B` and at most `L`
+    definitions per block, fuel above `mu B L n k` is never exhausted -/
+theorem specBody_noRec (D : Nat → List (List Item)) (hwf : WF D) (B L : Nat)
+    (hB : ∀ m, B ≤ m → D m = []) (hL : ∀ n, (D n).length ≤ L) :
+    ∀ f n k, mu B L n k < f → noRec (specBody D f n k) := by
+  intro f
+  induction f with
+  | zero => intro n k h; omega
+  | succ f ih =>
+    intro n k hmu
+    simp only [specBody]
+    cases hb : (D n)[k]? with
+    | none => intro e he; cases he; simp
+    | some body =>
+      simp only []
+      have hk : k < (D n).length := by
+        rcases Nat.lt_or_ge k (D n).length with h | h
+        · exact h
+        · rw [List.getElem?_eq_none h] at hb; cases hb
+      have hbody := hwf n k body hb
+      apply specItems_noRec
+      · intro m hmem hne
+        have hnm : n < m := by
+          unfold bodyOK at hbody
+          rw [List.all_eq_true] at hbody
+          have := hbody _ hmem
+          simpa [Item.isBody] using this
+        have hmB : m < B := by
+          rcases Nat.lt_or_ge m B with h | h
+          · exact h
+          · rw [hB m h] at hne; simp at hne
+        exact ih m 0 (by have := mu_block B L n k m hnm hmB; omega)
+      · intro n' k' hcur hlt
+        cases hcur
+        have := hL n
+        exact ih n (k + 1) (by have := mu_super B L n k (by omega); omega)
+
+theorem lookupBlock_none_of_ge (B m : Nat) (bs : List (Nat × List Item))
+    (hB : ∀ p ∈ bs, p.1 < B) (hm : B ≤ m) : lookupBlock m bs = none := by
+  cases h : lookupBlock m bs with
+  | none => rfl
+  | some b =>
+    have := hB _ (lookupBlock_mem m bs b h)
+    simp at this; omega
+
+theorem defs_empty_of_ge (env : Env) (B : Nat) (hB : ∀ T ∈ env, ∀ p ∈ T.blocks, p.1 < B)
+    (chain : List Nat) (m : Nat) (hm : B ≤ m) : defs env chain m = [] := by
+  simp only [defs, List.filterMap_eq_nil_iff]
+  intro i _
+  simp only [blockOf]
+  cases hT : env[i]? with
+  | none => rfl
+  | some T => exact lookupBlock_none_of_ge B m T.blocks (hB T (List.mem_of_getElem? hT)) hm
+
+theorem defs_length_le (env : Env) (chain : List Nat) (n : Nat) :
+    (defs env chain n).length ≤ chain.length := by
+  simp only [defs]; exact List.length_filterMap_le _ _
+
+/-- rendering a core environment needs only bounded nesting: with block names below `B`, fuel
+    of `|env| + B·(|env|+3) + |env| + 4` is never exhausted — cyclic chains included (they end
+    in the cycle error).  `noRec`: the result is not the recursion-limit error. -/
+theorem specTemplate_noRec (env : Env) (hcore : CoreEnv env) (B : Nat)
+    (hB : ∀ T ∈ env, ∀ p ∈ T.blocks, p.1 < B) :
+    ∀ f chain layout, chain ≠ [] → chain.tail.Nodup → (∀ x ∈ chain.tail, x < env.length) →
+      (env.length - chain.tail.length) + (B * (env.length + 2) + (env.length + 1)) + 2 ≤ f →
+      layoutOK layout = true → noRec (specTemplate env f chain layout) := by
+  intro f
+  induction f with
+  | zero => intro chain layout _ _ _ h _; omega
+  | succ f ih =>
+    intro chain layout hne hnd hlt hf hlay
+    have htl : chain.tail.length ≤ env.length := nodup_length_le _ _ hnd hlt
+    have hchain : chain.length ≤ env.length + 1 := by
+      cases chain with
+      | nil => exact absurd rfl hne
+      | cons c cs => simp only [List.tail_cons] at htl; simp; omega
+    have hwf := WF_defs env hcore chain
+    have hbody : ∀ m, noRec (specBody (defs env chain) f m 0) := by
+      intro m
+      apply specBody_noRec (defs env chain) hwf B (env.length + 1)
+        (fun m hm => defs_empty_of_ge env B hB chain m hm)
+        (fun n => Nat.le_trans (defs_length_le env chain n) hchain)
+      have := mu_le B (env.length + 1) m 0
+      rw [show env.length + 1 + 1 = env.length + 2 from rfl] at this
+      omega
+    have hitems : ∀ items, noRec (specItems (defs env chain) (specBody (defs env chain) f) none items) :=
+      fun items => specItems_noRec _ _ none items (fun m _ _ => hbody m) (by intro n k h; cases h)
+    simp only [specTemplate]
+    cases hs : splitExtends layout with
+    | none => exact hitems layout
+    | some r =>
+      obtain ⟨pre, t, post⟩ := r
+      simp only []
+      cases hpre : specItems (defs env chain) (specBody (defs env chain) f) none pre with
+      | error e => intro e' he; cases he; exact hitems pre _ hpre
+      | ok o =>
+        simp only []
+        by_cases hmem : t ∈ chain.tail
+        · simp only [hmem, if_true]; intro e he; cases he; simp
+        · simp only [hmem, if_false]
+          cases hT : env[t]? with
+          | none => intro e he; cases he; simp
+          | some T =>
+            simp only []
+            by_cases hx : hasExecExtends post = true
+            · simp only [hx, if_true]; intro e he; cases he; simp
+            · simp only [hx, if_false]
+              have hlt' : t < env.length := by
+                rcases Nat.lt_or_ge t env.length with h | h
+                · exact h
+                · rw [List.getElem?_eq_none h] at hT; cases hT
+              have hroom : chain.tail.length < env.length := by
+                rcases Nat.lt_or_ge chain.tail.length env.length with h | h
+                · exact h
+                · exact absurd (nodup_full env.length chain.tail hnd hlt h t hlt') hmem
+              have htail : (chain ++ [t]).tail = chain.tail ++ [t] := by
+                cases chain with
+                | nil => exact absurd rfl hne
+                | cons c cs => rfl
+              have hTok : layoutOK T.layout = true := by
+                have := hcore T (List.mem_of_getElem? hT)
+                simp only [templateOK, Bool.and_eq_true] at this
+                exact this.1
+              have := ih (chain ++ [t]) T.layout (by simp)
+                (by rw [htail]; exact List.nodup_append.2 ⟨hnd, by simp, by
+                  intro a ha b hb; simp at hb; subst hb; intro e; exact hmem (e ▸ ha)⟩)
+                (by rw [htail]; intro x hx'; rcases List.mem_append.1 hx' with h | h
+                    · exact hlt x h
+                    · simp at h; omega)
+                (by rw [htail, List.length_append, List.length_singleton]; omega) hTok
+              intro e he
+              cases hr : specTemplate env f (chain ++ [t]) T.layout with
+              | error e' => rw [hr] at he; cases he; exact this _ hr
+              | ok o' => rw [hr] at he; cases he
+
 end MJ.Blocks
